@@ -175,7 +175,7 @@ Print Assumptions C05_recovery_of_a_cut_encoding.
    sizes 0..3 under the marker-word condition nm_sec on the lines before the crash (known finding D6 outside it). *)
 Theorem C05_history_accepted_by_judge : forall (name:list byte) (p:nat) (hdr:list byte),
   (len (params_to_text BSgen.Consts.version (N.of_nat p) ++ hdr) <= 65535)%N -> (N.of_nat p < 2^64)%N ->
-  forall cb hs, JudgeFacts.hvalid p hdr [] hs ->
+  forall cb hs, JudgeFacts.hvalid name p hdr [] hs ->
   accepted World.init_world judge_init (ONew name (N.of_nat p) hdr [] cb :: JudgeFacts.flatten name hs).
 Proof. exact history_accepted. Qed.
 Print Assumptions C05_history_accepted_by_judge.
